@@ -820,6 +820,9 @@ def hyp_cases(draw, tier):
 RULE_ROUND8 = " Real-lock part, mode after-exception: a thread leaves `with tree:` by KeyError(404) / OSError(2,'x') / ValueError() / StopTraversal(5) / SystemExit(3) / from a nested section, or a snapshot operation raises (colliding copy_to / add(tree), raising mapper / predicate, unwritable path); the thread stays alive and a second thread must then complete its snapshot with the committed state. Exhaustive part: a 300-node tree (thorough: 130 / 300 / 700, plain and typed) with a writer section that changes the front AND the end of the tree, against save / copy / copy_to(deep=False) (thorough: also save(path), copy_to, to_dotfile(path))."
 RULE = RULE + RULE_ROUND8
 
+RULE_ROUND9 = " Real-lock mode reader-first: a snapshot operation with a user callback (to_dict_list / save / to_dotfile mapper, copy / filtered predicate) is in the middle of the tree when the writer arrives (the callback waits 0.3 s for it); the result is the state before or after the writer's section. With twin: the reader is meanwhile inside `with other:` of another tree of the same name."
+RULE = RULE + RULE_ROUND9
+
 PARTS = [
     Part("all-schedules", run_exhaustive, enum=enum_cases, watchdog=3600),
     Part("random-programs", run_random, strategy=hyp_cases, n={"quick": 100, "thorough": 20000}, watchdog=600),
